@@ -127,6 +127,13 @@ class AbstractSourceSinkGraph(nx.DiGraph):
                 raise ValueError(
                     f"Edge ({u},{v}) does not have the required flow attribute '{flow_attr}'."
                 )
+            if data[flow_attr] != data[flow_attr] or data[flow_attr] in (float("inf"), float("-inf")):
+                utils.logger.error(
+                    f"Edge ({u},{v}) has non-finite flow value {data[flow_attr]}. All flow values must be finite and >=0."
+                )
+                raise ValueError(
+                    f"Edge ({u},{v}) has non-finite flow value {data[flow_attr]}. All flow values must be finite and >=0."
+                )
             if data[flow_attr] < 0:
                 utils.logger.error(
                     f"Edge ({u},{v}) has negative flow value {data[flow_attr]}. All flow values must be >=0."
